@@ -160,3 +160,165 @@ CONTRACTS += [
         raises={'PySmiSemanticError': True},
     ),
 ]
+
+# =====================================================================================================
+# clause handlers: one record per declaration (C03), text members only on request (C15), object lists in order
+# with module attribution (C06), OID string taken from the resolved OID (C01)
+# =====================================================================================================
+TEXT = 'truthy(self.genRules["text"])'
+HY = lambda e: 'py_replace(%s, "-", "_")' % e
+
+
+def opt(member, src, cond='True'):
+    return {
+        member + '_present_iff_declared': 'implies(not raised, iff("%s" in result, (%s) and truthy(%s)))' % (member, cond, src),
+        member + '_as_declared': 'implies(not raised and "%s" in result, same(result["%s"], %s))' % (member, member, src),
+    }
+
+
+def common(name_src, cls, members, oid_src=None):
+    e = {
+        'name_is_translated': 'implies(not raised, same(result["name"], %s))' % HY(name_src),
+        'class': 'implies(not raised, result["class"] == "%s")' % cls,
+        'no_other_member': 'implies(not raised, forall(result, lambda k: k in %r))' % (tuple(['name', 'class', 'oid'] + members),),
+        'registered_under_translated_name': 'implies(not raised, same(self._out[%s], result))' % HY(name_src),
+        'other_records_untouched': 'implies(not raised, forall(lambda s_k: implies(s_k != %s, '
+                                   'same(self._out[s_k], old(self._out)[s_k]))))' % HY(name_src),
+    }
+    if oid_src:
+        e['oid_is_resolved_oid'] = 'implies(not raised, same(result["oid"], %s))' % oid_src
+    return e
+
+
+def objects_clause(member, src):
+    return {
+        member + '_present_iff_nonempty': 'implies(not raised, iff("%s" in result, len(%s) > 0))' % (member, src),
+        member + '_same_length': 'implies(not raised and "%s" in result, len(result["%s"]) == len(%s))' % (member, member, src),
+        member + '_same_order_and_attribution': 'implies(not raised and "%s" in result, forall(seq(result["%s"]), '
+            'lambda j, o: same(o["object"], %s) and same(o["module"], self._importMap.get(%s[j], self.moduleName[0]))))'
+            % (member, member, HY(src + '[j]'), src),
+    }
+
+
+def merged(*ds):
+    out = {}
+    for d in ds:
+        out.update(d)
+    return out
+
+
+OIDT = Tup(Str, Any)
+H_INLINE = ['IntermediateCodeGen.transOpers', 'IntermediateCodeGen.genLabel']
+
+
+def handler(fn, data_shape, ensures, serves, requires=()):
+    return Contract(id='intermediate.' + fn, file=FILE, func='IntermediateCodeGen.' + fn, serves=serves,
+                    params={'self': SELF, 'data': data_shape}, inline=H_INLINE, requires=list(requires),
+                    returns=MapOf(), assigns=REG_ASSIGNS, ensures=ensures, raises={'PySmiSemanticError': True})
+
+
+CONTRACTS += [
+    handler('genObjectIdentity', Lst(Str, Any, Any, Any, OIDT),
+            merged(common('data[0]', 'objectidentity', ['status', 'description', 'reference'], 'data[4][0]'),
+                   opt('status', 'data[1]'), opt('description', 'data[2]', TEXT), opt('reference', 'data[3]', TEXT)),
+            ['C03', 'C15', 'C01']),
+    handler('genValueDeclaration', Lst(Str, OIDT),
+            common('data[0]', 'objectidentity', [], 'data[1][0]'), ['C03', 'C01']),
+    handler('genAgentCapabilities', Lst(Str, Any, Any, Any, Any, OIDT),
+            merged(common('data[0]', 'agentcapabilities', ['productrelease', 'status', 'description', 'reference'], 'data[5][0]'),
+                   opt('productrelease', 'data[1]'), opt('status', 'data[2]'), opt('description', 'data[3]', TEXT),
+                   opt('reference', 'data[4]', TEXT)),
+            ['C03', 'C15', 'C01']),
+    handler('genModuleCompliance', Lst(Str, Any, Any, Any, Any, OIDT),
+            merged(common('data[0]', 'modulecompliance', ['modulecompliance', 'status', 'description', 'reference'], 'data[5][0]'),
+                   opt('status', 'data[1]'), opt('description', 'data[2]', TEXT), opt('reference', 'data[3]', TEXT),
+                   opt('modulecompliance', 'data[4]')),
+            ['C03', 'C15', 'C06', 'C01']),
+    handler('genNotificationGroup', Lst(Str, SeqOf(Str), Any, Any, Any, OIDT),
+            merged(common('data[0]', 'notificationgroup', ['objects', 'status', 'description', 'reference'], 'data[5][0]'),
+                   objects_clause('objects', 'data[1]'), opt('status', 'data[2]'), opt('description', 'data[3]', TEXT),
+                   opt('reference', 'data[4]', TEXT)),
+            ['C03', 'C15', 'C06', 'C01']),
+    handler('genNotificationType', Lst(Str, SeqOf(Str), Any, Any, Any, OIDT),
+            merged(common('data[0]', 'notificationtype', ['objects', 'status', 'description', 'reference'], 'data[5][0]'),
+                   objects_clause('objects', 'data[1]'), opt('status', 'data[2]'), opt('description', 'data[3]', TEXT),
+                   opt('reference', 'data[4]', TEXT)),
+            ['C03', 'C15', 'C06', 'C01']),
+    handler('genObjectGroup', Lst(Str, SeqOf(Str), Any, Any, Any, OIDT),
+            merged(common('data[0]', 'objectgroup', ['objects', 'status', 'description', 'reference'], 'data[5][0]'),
+                   objects_clause('objects', 'data[1]'), opt('status', 'data[2]'), opt('description', 'data[3]', TEXT),
+                   opt('reference', 'data[4]', TEXT)),
+            ['C03', 'C15', 'C06', 'C01']),
+    # TRAP-TYPE becomes a notification with OID <enterprise>.0.<trap number>; objects = VARIABLES in order
+    handler('genTrapType', Lst(Str, OIDT, SeqOf(Str), Any, Any, Int),
+            merged(common('data[0]', 'notificationtype', ['objects', 'description', 'reference'],
+                          'data[1][0] + ".0." + str(data[5])'),
+                   objects_clause('objects', 'data[2]'), opt('description', 'data[3]', TEXT),
+                   opt('reference', 'data[4]', TEXT)),
+            ['C03', 'C15', 'C06', 'C01', 'C16']),
+]
+
+# =====================================================================================================
+# sub-part handlers
+# =====================================================================================================
+def sub(fn, data_shape, ensures, serves, requires=(), raises=None, loops=None, inline=(), returns=Any, defs=None,
+        assigns=(), let=None):
+    return Contract(id='intermediate.' + fn, file=FILE, func='IntermediateCodeGen.' + fn, serves=serves,
+                    params={'self': SELF, 'data': data_shape}, requires=list(requires), ensures=ensures,
+                    raises=raises or {}, loops=loops or {}, inline=list(inline) + ['IntermediateCodeGen.transOpers'],
+                    returns=returns, defs=defs or {}, assigns=list(assigns), let=let or {})
+
+
+def passthrough(fn, serves):
+    return sub(fn, Lst(Any), {'handed_on_unchanged': 'not raised and same(result, data[0])'}, serves)
+
+
+def filtered(fn, kind, serves):
+    return sub(fn, Lst(Str), {'text_through_filter_once': 'not raised and same(result, self.textFilter("%s", data[0]))' % kind},
+               serves, returns=Str)
+
+
+TIMEFMT = ('lambda s: ite(valid_time(ite(len(s) == 11, "19" + s, s), "%Y%m%d%H%MZ"), '
+           'strftime("%Y-%m-%d %H:%M", strptime(ite(len(s) == 11, "19" + s, s), "%Y%m%d%H%MZ")), '
+           'strftime("%Y-%m-%d %H:%M", strptime("197001010000Z", "%Y%m%d%H%MZ")))')
+
+CONTRACTS += [
+    passthrough('genBitNames', ['C05']), passthrough('genStatus', ['C03']), passthrough('genMaxAccess', ['C03', 'C16']),
+    passthrough('genLastUpdated', ['C03', 'C15']),
+    filtered('genDescription', 'description', ['C15']), filtered('genReference', 'reference', ['C15']),
+    filtered('genUnits', 'units', ['C15']), filtered('genOrganization', 'organization', ['C15']),
+    filtered('genContactInfo', 'contact-info', ['C15']),
+    # C15: every emitted text goes through the text filter; DISPLAY-HINT and PRODUCT-RELEASE bypass it (D26)
+    filtered('genDisplayHint', 'display-hint', ['C15']), filtered('genProductRelease', 'product-release', ['C15']),
+    sub('genObjects', Lst(SeqOf(Str)),
+        {'same_length': 'not raised and len(result) == len(data[0])',
+         'same_order_translated': 'forall(seq(result), lambda j, o: same(o, py_replace(data[0][j], "-", "_")))'},
+        ['C06'], returns=SeqOf(Str)),
+    sub('genTime', Lst(Str),
+        {'one_per_input': 'not raised and len(result) == 1',
+         'normalised_or_epoch': 'same(result[0], TIMEFMT(data[0]))'},
+        ['C03'], defs={'TIMEFMT': TIMEFMT}, returns=Lst(Str)),
+    sub('genRevisions', Lst(SeqOf()),
+        {'one_per_revision_in_order': 'implies(not raised, len(result) == len(data[0]))',
+         'date_and_filtered_text': 'implies(not raised, forall(seq(result), lambda j, r: is_dict(r) and '
+                                   'same(r["revision"], TIMEFMT(data[0][j][0])) and '
+                                   'same(r["description"], self.textFilter("description", data[0][j][1][1]))))'},
+        ['C03', 'C15'], defs={'TIMEFMT': TIMEFMT},
+        requires=['forall(data[0], lambda x: is_tuple(x) and len(x) == 2 and is_str(x[0]) and is_tuple(x[1]) '
+                  'and len(x[1]) == 2 and is_str(x[1][1]))'],
+        loops={1: {'invariant': ['len(revisions) == _i',
+                                 'forall(seq(revisions), lambda j, r: is_dict(r) and same(r["revision"], TIMEFMT(data[0][j][0])) '
+                                 'and same(r["description"], self.textFilter("description", data[0][j][1][1])))']}},
+        returns=SeqOf()),
+    sub('genSimpleSyntax', Lst(Str),
+        {'scalar_type_record': 'not raised and result[0] == "scalar" and result[1]["class"] == "type"',
+         'type_name_translated': 'same(result[1]["type"], py_replace(self.SMI_TYPES.get(data[0], data[0]), "-", "_"))',
+         'no_constraints': '"constraints" not in result[1]'},
+        ['C05', 'C16'], returns=Tup(Str, MapOf())),
+    sub('genSimpleSyntax', Lst(Str, Any),
+        {'scalar_type_record': 'not raised and result[0] == "scalar" and result[1]["class"] == "type"',
+         'type_name_translated': 'same(result[1]["type"], py_replace(self.SMI_TYPES.get(data[0], data[0]), "-", "_"))',
+         'constraints_iff_present': 'iff("constraints" in result[1], truthy(data[1]))',
+         'constraints_as_given': 'implies(truthy(data[1]), same(result[1]["constraints"], data[1]))'},
+        ['C05', 'C16'], returns=Tup(Str, MapOf())).variant('with-subtype'),
+]
